@@ -92,7 +92,8 @@ fn plain(bytes: &[u8]) -> Plain {
 		return Plain::NotJson;
 	}
 	if let Ok(ms) = serde_json::from_str::<RawMembers>(t) {
-		let mut names: Vec<&str> = ms.0.iter().map(|(k, _)| k.as_str()).collect();
+		// serde's derived visitors reject a repeated *known* member; unknown members are skipped, repeated or not
+		let mut names: Vec<&str> = ms.0.iter().map(|(k, _)| k.as_str()).filter(|k| ["jsonrpc", "id", "method", "params"].contains(k)).collect();
 		names.sort();
 		if names.windows(2).any(|w| w[0] == w[1]) {
 			return Plain::DupKeys;
